@@ -2,6 +2,7 @@ package harness
 
 import (
 	"context"
+	"encoding/binary"
 	"errors"
 	"fmt"
 	"net"
@@ -31,10 +32,10 @@ func init() { labs["race"] = labRace }
 // probes they answer are sent, failures complete at the same time.  It writes no cases: a race is reported by
 // the detector on stderr ("WARNING: DATA RACE") and fails the process.
 type rawSource struct {
-	mu    sync.Mutex
-	pkts  [][]byte
-	i     int
-	dl    time.Time
+	mu   sync.Mutex
+	pkts [][]byte
+	i    int
+	dl   time.Time
 }
 
 func (s *rawSource) SetReadDeadline(t time.Time) error { s.dl = t; return nil }
@@ -62,7 +63,9 @@ func (nullSink) Close() error                                  { return nil }
 // resetRT: every request fails with a transport error (retryable for the public-IP lookup)
 type resetRT struct{}
 
-func (resetRT) RoundTrip(*http.Request) (*http.Response, error) { return nil, errors.New("connection reset") }
+func (resetRT) RoundTrip(*http.Request) (*http.Response, error) {
+	return nil, errors.New("connection reset")
+}
 
 func labRace(e labEnv) {
 	tags := map[string]int{}
@@ -80,6 +83,11 @@ func labRace(e labEnv) {
 				q := buildIP4(ip4Hdr{ttl: 1, proto: 1, src: l4, dst: t4, id: id}, buildICMP4(8, 0, [4]byte{byte(id >> 8), byte(id), 0, ttl}, []byte{ttl}))
 				src.pkts = append(src.pkts, te4(router4(int(ttl)), l4, 11, 0, q[:28], nil, [4]byte{}))
 			}
+			// ... and the destination answers the probe for TTL 9 while later TTLs are still being sent (on odd repetitions),
+			// so the reader's "stop sending" signal crosses the writer
+			if rep%2 == 1 {
+				src.pkts = append(src.pkts, buildIP4(ip4Hdr{ttl: 55, proto: 1, src: t4, dst: l4, id: 7}, buildICMP4(0, 0, [4]byte{byte(id >> 8), byte(id), 0, 9}, []byte{9})))
+			}
 			_, _ = common.TracerouteParallel(context.Background(), v.Driver(), pp)
 			tags["icmp_parallel"]++
 		}
@@ -92,6 +100,11 @@ func labRace(e labEnv) {
 				seg := buildUDP4(40000, 33434, []byte("NSMNC\x00\x00\x00"), l4, t4)
 				q := buildIP4(ip4Hdr{ttl: 1, proto: 17, src: l4, dst: t4, id: uint16(41821 + ttl), flagsOff: 0x4000}, seg)
 				src.pkts = append(src.pkts, te4(router4(ttl), l4, 11, 0, q[:28], nil, [4]byte{}))
+			}
+			if rep%2 == 1 {
+				seg := buildUDP4(40000, 33434, []byte("NSMNC\x00\x00\x00"), l4, t4)
+				q := buildIP4(ip4Hdr{ttl: 1, proto: 17, src: l4, dst: t4, id: uint16(41821 + 9), flagsOff: 0x4000}, seg)
+				src.pkts = append(src.pkts, te4(t4, l4, 3, 3, q[:28], nil, [4]byte{}))
 			}
 			_, _ = common.TracerouteParallel(context.Background(), d, pp)
 			tags["udp_parallel"]++
@@ -111,6 +124,13 @@ func labRace(e labEnv) {
 				q := buildIP4(ip4Hdr{ttl: 1, proto: 6, src: l4, dst: t4, id: 41821}, seg)
 				src.pkts = append(src.pkts, te4(router4(int(ttl)), l4, 11, 0, q[:28], nil, [4]byte{}))
 			}
+			if rep%2 == 1 {
+				opt := []byte{1, 1, 5, 10, 0, 0, 0, 0, 0, 0, 0, 0}
+				binary.BigEndian.PutUint32(opt[4:], c.initSeq+9)
+				binary.BigEndian.PutUint32(opt[8:], c.initSeq+10)
+				seg := buildTCP4(tcpHdr{sport: 443, dport: 50123, seq: 78, ack: c.initSeq, flags: 0x10, win: 512, opts: opt}, nil, t4, l4)
+				src.pkts = append(src.pkts, buildIP4(ip4Hdr{ttl: 60, proto: 6, src: t4, dst: l4}, seg))
+			}
 			src.mu.Unlock()
 			_, _ = common.TracerouteParallel(context.Background(), v.Driver(), pp)
 			tags["sack_parallel"]++
@@ -127,7 +147,13 @@ func labRace(e labEnv) {
 			})
 			tr := traceroute.VerifNewTraceroute(stubFetcher{ok: true, text: "203.0.113.9"})
 			go func() { time.Sleep(2 * time.Millisecond); close(start) }()
-			_, _ = tr.RunTraceroute(context.Background(), traceroute.TracerouteParams{Hostname: "x", Protocol: "udp", MinTTL: 1, MaxTTL: 2, Timeout: 0, TracerouteQueries: 8, E2eQueries: 8, CollectSourcePublicIP: true, ReverseDns: false})
+			// alternately a TCP request with a SACK method: the end-to-end probes of such a request run with another method
+			// than its traceroute runs, whatever part of the request settles that
+			proto, method := "udp", traceroute.TCPMethod("")
+			if rep%2 == 1 {
+				proto, method = "tcp", traceroute.TCPMethod([]string{"prefer_sack", "sack"}[rep/2%2])
+			}
+			_, _ = tr.RunTraceroute(context.Background(), traceroute.TracerouteParams{Hostname: "x", Protocol: proto, TCPMethod: method, MinTTL: 1, MaxTTL: 2, Timeout: 0, TracerouteQueries: 8, E2eQueries: 8, CollectSourcePublicIP: true, ReverseDns: false})
 			restore()
 			tags["multi_query"]++
 		}
